@@ -335,7 +335,8 @@ CC = dict(mode="plain", src=["array.c"], link=["wrap.c", "util.c"], link_keep={"
 CCB = "at most 2 parts of at most 2 elements each (a part that is the array itself: the array then has at most 2 elements; the element loops are unwound); destination array of capacity 0..3, every length 0..capacity (all blocks allocated with a constant size of 16 elements, logical capacity tracked by the models)"
 CCA = ["janet_array_push / janet_array_ensure replaced by asserting models of their contracts (units seq.array.push, seq.array.ensure): ensure does nothing for capacity <= current capacity, else REPLACES the block (old block freed, elements at the two ghost positions kept); push raises at INT32_MAX elements, grows when full, stores x",
        "janet_indexed_view is a pure function of the value: a slot with the bits of slot 0 is the array itself (current data / count), any other array or tuple slot yields a separate readable view of 0..2 elements",
-       "janet_getarray: slot 0 is a well-formed array of any size; janet_arity returns only for an accepted argc"]
+       "janet_getarray: slot 0 is a well-formed array of any size; janet_arity returns only for an accepted argc",
+       "argument values are valid nanboxed values: the tag bits are those of janet_type (no non-canonical NaN payloads)"]
 M_STALE = lambda which: mut("stale-view-after-reservation", "array.c",
     "                    janet_array_ensure(array, newcount, 2);\n                    janet_indexed_view(argv[i], &vals, &len);\n                }" if which == "concat" else "            janet_array_ensure(array, newcount, 2);\n            janet_indexed_view(argv[i], &vals, &len);\n        }",
     "                    janet_array_ensure(array, newcount, 2);\n                }" if which == "concat" else "            janet_array_ensure(array, newcount, 2);\n        }", "pointer_dereference|C17|deallocated")
